@@ -72,6 +72,13 @@ def generate(run_seed, tier):
             chain.append(["vk", r.choice(vk_f), restart, how])
     if r.random() < 0.5:
         chain.append(["model_sk", r.choice([f for f in sk_f if f != "pickle"])])
+    if r.random() < 0.3:
+        # RFC 5958 keys as other implementations write them: version 0, or
+        # with the optional attributes [0] / publicKey [1] fields
+        chain.append(["model_sk", r.choice(["der", "pem"]) + ":" + r.choice(
+            ["pkcs8v0", "pkcs8attrs", "pkcs8pub", "pkcs8both"]) + ":" +
+            r.choice(["uncompressed", "compressed"] if mc.plen > 1
+                     else ["uncompressed"])])
     if r.random() < 0.5:
         chain.append(["model_vk", r.choice([f for f in vk_f if f != "pickle"])])
     return dict(curve=cname, d=d, chain=chain,
@@ -213,6 +220,11 @@ def execute(prog):
                     fail("roundtrip", where + "-scalar",
                          "reloaded key has scalar %s" % bytes(
                              nsk.to_string()).hex())
+                if nvk.default_hashfunc is not hf or (
+                        nsk is not None and nsk.default_hashfunc is not hf):
+                    fail("roundtrip", where + "-default-hash",
+                         "the reloaded key's default hash function is %r, it "
+                         "was loaded with %r" % (nvk.default_hashfunc, hf))
                 if fmt != "pickle":
                     if nvk.curve is not curve:
                         fail("roundtrip", where + "-curve",
